@@ -8,6 +8,7 @@ package dtls
 // sequence numbers per epoch in emission order, (c) seq < 2^48.
 
 import (
+	"bytes"
 	"context"
 	"errors"
 	"fmt"
@@ -514,6 +515,206 @@ func vfC09Overflow(t *testing.T, res *vfResult, sn string) {
 	synctest.Wait()
 }
 
+// vfC09ExportImport: a DTLS 1.2 session whose application looks at ConnectionState() at several moments of its life
+// (as applications do to read the peer certificate), exports it after more traffic, and continues on the imported
+// copy: across the original and the resumed connection no (epoch, sequence number) may be used twice, and the
+// untouched peer must receive everything (a re-used number is dropped by its replay window).
+func vfC09ExportImport(t *testing.T, res *vfResult, sn string, cid int, side string) {
+	cfg := vfBaseCfg(vfSuiteByName(sn), "ecdsa")
+	cfg.CIDc, cfg.CIDs = cid, cid
+	n := vfNewNet()
+	co, so := cfg.Options(nil, nil)
+	p, err := vfNewPair(n, co, so)
+	res.Eval(1)
+	if err != nil {
+		res.Inconc("export/import cfg: " + err.Error())
+
+		return
+	}
+	if ce, se := p.Handshake(time.Minute); ce != nil || se != nil {
+		res.Inconc(fmt.Sprintf("export/import handshake failed %v %v", ce, se))
+		p.Close()
+
+		return
+	}
+	x, y := vfSideOf(p, side) // x is exported, y stays
+	y.StartPump()
+	x.StartPump()
+	id := fmt.Sprintf("export-import/%s/cid%d/%s", sn, cid, side)
+	sent := 0
+	write := func(c *Conn, k int) {
+		for i := 0; i < k; i++ {
+			sent++
+			if _, err := c.Write([]byte(fmt.Sprintf("c09-ei-%04d", sent))); err != nil {
+				res.Count("export_import_write_errors", 1)
+			}
+		}
+		synctest.Wait()
+	}
+	_, _ = x.Conn.ConnectionState() // right after the handshake
+	write(x.Conn, 3)
+	_, _ = x.Conn.ConnectionState() // and again in mid-life
+	write(x.Conn, 4)
+	_, _ = y.Conn.Write([]byte("from-the-peer"))
+	synctest.Wait()
+	st, ok := x.Conn.ConnectionState()
+	mark := n.LogLen()
+	if !ok {
+		res.Inconc("export/import: no ConnectionState")
+		p.Close()
+
+		return
+	}
+	raw, err := st.MarshalBinary()
+	var st2 State
+	if err == nil {
+		err = st2.UnmarshalBinary(raw)
+	}
+	if err != nil {
+		res.Inconc("export/import: " + err.Error())
+		p.Close()
+
+		return
+	}
+	yCID := vfCIDLenOf(y.Conn)
+	// the original connection goes away silently, the copy takes over its address
+	addr := string(x.EP.addr)
+	var gone atomic.Bool
+	gone.Store(true)
+	n.SetOnSend(func(n *vfNet, w *vfWire) {
+		if w.From == x.Name && gone.Load() {
+			return // (its close_notify, numbered after the export, never reaches the peer and is not part of the history)
+		}
+		from := x.EP.addr
+		if w.From == y.Name {
+			from = y.EP.addr
+		}
+		n.Deliver(w.Dst, w.Data, from)
+	})
+	_ = x.Conn.Close()
+	synctest.Wait()
+	ep2 := n.Endpoint(x.Name+"2", addr)
+	n.Alias(addr, ep2)
+	rc, err := ResumeWithOptions(&st2, ep2, y.EP.addr)
+	if err != nil {
+		res.Inconc("export/import resume: " + err.Error())
+		p.Close()
+
+		return
+	}
+	go func() {
+		buf := make([]byte, 2048)
+		for {
+			if _, err := rc.Read(buf); err != nil {
+				return
+			}
+		}
+	}()
+	write(rc, 6)
+	time.Sleep(50 * time.Millisecond)
+	synctest.Wait()
+	// every record either incarnation emitted
+	var ems []*vfWire
+	for i, w := range n.LogSince(0) {
+		if !w.Deliver && ((w.From == x.Name && i < mark) || w.From == x.Name+"2") {
+			ems = append(ems, w)
+		}
+	}
+	obs, _ := vfDecodeSeqs(ems, nil, yCID)
+	res.Count("records_decoded", int64(len(obs)))
+	seen := map[[2]uint64]int{}
+	for _, o := range obs {
+		k := [2]uint64{uint64(o.Epoch), o.Seq}
+		if o.Epoch == 0 {
+			continue
+		}
+		if prev, dup := seen[k]; dup {
+			res.Violate(fmt.Sprintf("C09:duplicate:export-import:v1.2:%s", map[bool]string{true: "cid", false: "nocid"}[cid > 0]),
+				fmt.Sprintf("%s: record (epoch %d, seq %d) was emitted by the original connection (datagram #%d) and again after the exported state was imported (datagram #%d)", id, o.Epoch, o.Seq, prev, o.Idx), map[string]any{"case": id})
+
+			break
+		}
+		seen[k] = o.Idx
+	}
+	got := 0
+	for _, rd := range y.ReadsSnapshot() {
+		if bytes.HasPrefix(rd, []byte("c09-ei-")) {
+			got++
+		}
+	}
+	if got != sent {
+		res.Violate(fmt.Sprintf("C09:export-import:payloads-lost:v1.2:%s", map[bool]string{true: "cid", false: "nocid"}[cid > 0]),
+			fmt.Sprintf("%s: %d payloads were written across export and import, the untouched peer received %d", id, sent, got), map[string]any{"case": id})
+	}
+	res.Count("export_import_sessions", 1)
+	res.NonTrivial(id)
+	_ = rc.Close()
+	_ = ep2.Close()
+	p.Close()
+	synctest.Wait()
+}
+
+// vfC09LongEpoch13: more than 2^16 records in one DTLS 1.3 epoch. The record header carries 16 bits of the record
+// number; the nonce has to come from the full 64-bit number. Every emitted record is opened with the nonce of its
+// reconstructed number; one that only opens under the number of an earlier record has re-used that nonce.
+func vfC09LongEpoch13(t *testing.T, res *vfResult, sn string) {
+	cfg := vfBaseCfg(vfSuiteByName(sn), "ecdsa")
+	cfg.CVer, cfg.SVer, cfg.HelloVerify = "13", "13", false
+	n := vfNewNet()
+	co, so := cfg.Options(nil, nil)
+	p, err := vfNewPair(n, co, so)
+	res.Eval(1)
+	if err != nil {
+		res.Inconc("long epoch cfg: " + err.Error())
+
+		return
+	}
+	if ce, se := p.Handshake(time.Minute); ce != nil || se != nil {
+		res.Inconc(fmt.Sprintf("long epoch handshake failed %v %v", ce, se))
+		p.Close()
+
+		return
+	}
+	p.S.StartPump()
+	p.C.StartPump()
+	time.Sleep(3 * time.Second)
+	synctest.Wait()
+	const total = 65536 + 80
+	for i := 0; i < total; i++ {
+		if _, err := p.C.Conn.Write([]byte(fmt.Sprintf("le-%06d", i))); err != nil {
+			res.Inconc("long epoch write: " + err.Error())
+
+			break
+		}
+		if i%256 == 255 {
+			synctest.Wait()
+		}
+	}
+	time.Sleep(50 * time.Millisecond)
+	synctest.Wait()
+	ems := n.Emissions("c")
+	obs, und := vfDecodeSeqs(ems, p.C.Conn, vfCIDLenOf(p.S.Conn))
+	res.Count("records_decoded", int64(len(obs)))
+	res.Count("long_epoch_records", int64(len(obs)))
+	if und > 0 {
+		res.Violate("C09:nonce-not-from-record-number:long-epoch:v1.3",
+			fmt.Sprintf("long-epoch/%s: %d of %d records the client emitted in one epoch do not open under the nonce of their own record number (first numbers are fine: the nonce is not derived from the full 64-bit record number, so nonces repeat after 2^16 records)", sn, und, und+len(obs)), map[string]any{"case": sn})
+	}
+	if cls, what := vfNonceVerdict(obs); cls != "" {
+		res.Violate("C09:"+cls+":long-epoch:v1.3", what, nil)
+	}
+	got := 0
+	for _, rd := range p.S.ReadsSnapshot() {
+		if bytes.HasPrefix(rd, []byte("le-")) {
+			got++
+		}
+	}
+	res.Count("long_epoch_payloads_delivered", int64(got))
+	res.NonTrivial("long-epoch/" + sn)
+	p.Close()
+	synctest.Wait()
+}
+
 func errSequenceNumberOverflowVF() error { return errSeqOverflowSentinel }
 
 var errSeqOverflowSentinel = errors.New("vf-sentinel")
@@ -532,6 +733,26 @@ func TestVF_C09(t *testing.T) {
 	// (3) overflow
 	ov := []string{"ECDSA-GCM128", "ECDSA-CBC", "ECDSA-CHACHA", "13-GCM128"}
 	vfBubbles(t, len(ov), func(t *testing.T, i int) { vfC09Overflow(t, res, ov[i]) })
+	// (4) export / import with earlier ConnectionState() calls, (5) more than 2^16 records in one DTLS 1.3 epoch
+	type ei struct {
+		sn   string
+		cid  int
+		side string
+	}
+	var eis []ei
+	for _, sn := range []string{"ECDSA-GCM128", "ECDSA-CBC", "ECDSA-CHACHA", "ECDSA-CCM8"} {
+		for _, cid := range []int{0, 4} {
+			for _, side := range []string{"c", "s"} {
+				eis = append(eis, ei{sn, cid, side})
+			}
+		}
+	}
+	vfBubbles(t, len(eis), func(t *testing.T, i int) { vfC09ExportImport(t, res, eis[i].sn, eis[i].cid, eis[i].side) })
+	le := []string{"13-GCM128"}
+	if vfThorough() {
+		le = []string{"13-GCM128", "13-CHACHA", "13-GCM256"}
+	}
+	vfBubbles(t, len(le), func(t *testing.T, i int) { vfC09LongEpoch13(t, res, le[i]) })
 	// (1) stress on the real scheduler
 	scs := vfC09StressCfgs()
 	iters := vfPick(2, 12)
